@@ -247,6 +247,18 @@ class Interp:
             v = v.lookup(p) if isinstance(v, ClassV) else self.getattr(v, p)
         return v
 
+    def get_nested_function(self, relpath, outer_qualname, inner_name, extra_env=None):
+        """Extract a function defined inside another function (mechanically, from the AST): the closure is
+        given the enclosing module's globals plus `extra_env` for the enclosing function's locals it reads."""
+        outer = self.get_function(relpath, outer_qualname)
+        for n in ast.walk(outer.node):
+            if isinstance(n, ast.FunctionDef) and n.name == inner_name and n is not outer.node:
+                env = {'__parent__': None, '__qualname__': outer.qualname}
+                env.update(extra_env or {})
+                fv = self.make_function(n, env, outer.module)
+                return fv
+        raise Unsupported(f'nested function {inner_name} not found in {outer_qualname}')
+
     def function_info(self, fv):
         text, _ = self.source_of(fv.module.path)
         seg = ast.get_source_segment(text, fv.node) or ''
